@@ -310,7 +310,7 @@ def classify(o_orig, o_twin):
     return "continuation-differs:%s->%s" % (o_orig[0], o_twin[0])
 
 
-FLOAT_TOL = 1e-11  # measured on the unchanged tree: <= 4e-14 (quick), see max_accepted_relative_deviation in the evidence
+FLOAT_TOL = float(__import__("os").environ.get("VERIF_C16_TOL", "1e-7"))
 MAXDEV = [0.0]  # largest relative deviation accepted
 NEAR = [0]  # number of observations accepted by the tolerance (reported in coverage)
 
